@@ -445,3 +445,68 @@ def c11(run):
     ps.execute()
     run.assumptions += [BOUNDED, "closure exits are generated from a fixed template (exit statement at a chosen "
                         "element); a 3 s timeout stands for non-termination"]
+
+
+# ------------------------------------------------------------------------------------------- C10
+def _iterdsl_programs(run, path, name, limit=None, seed=1):
+    import progs
+    import random
+    import gen_iterdsl as gi
+    lines = [json.loads(l) for l in open(path)]
+    if limit and len(lines) > limit:
+        # quick tier: all chains where adapters interact (a direction-dependent adapter after a rev, or a
+        # continue/break adapter inside a flat_map) with the order-revealing consumers, plus a seeded sample of the rest
+        def interacting(r):
+            ks = [a["k"] for a in r["chain"]]
+            if r["cons"] not in ("for_each", "fold"):
+                return False
+            for i, k in enumerate(ks):
+                if k == "rev" and any(x in ("zip", "flat_map") for x in ks[i + 1:]):
+                    return True
+                if k == "flat_map" and any(x in ("filter", "filter_map", "skip", "skip_while", "take", "take_while") for x in ks[i + 1:]):
+                    return True
+            return False
+        pri = [r for r in lines if interacting(r)]
+        rest = [r for r in lines if not interacting(r)]
+        random.Random(seed).shuffle(rest)
+        lines = pri + rest[:max(0, limit - len(pri))]
+    ps = progs.ProgSet(run, name)
+    for r in lines:
+        body, exp, model = gi.case(r)
+        guard = gi.std_guard_applies(r)
+        rec = {"m": "IterDsl", "mac": "iter-dsl", "chain": [a["k"] + ("(%d)" % a["n"] if a["k"] in ("map", "skip", "take") else "") for a in r["chain"]],
+               "cons": r["cons"], "known": r["known"], "model": "K:" + model, "expected": exp}
+
+        def accept(g, exp=exp, model=model, guard=guard, rec=rec):
+            if not g.startswith("K:") or ";S:" not in g:
+                return False
+            kk, ss = g[2:].split(";S:", 1)
+            if guard and ss != exp:
+                raise core.ToolError("SPEC-REFERENCE-MISMATCH: Std(chain) of the specification differs from real std for %s: "
+                                     "spec=%s std=%s" % (json.dumps(rec)[:300], exp, ss))
+            rec["got_konst"] = kk
+            return kk == exp
+        ps.add(body, "K:" + exp, rec, accept=accept)
+    return ps
+
+
+@check("C10", rule="one program per (adapter chain, consumer) that std's trait bounds and konst both accept, over an "
+                    "11-adapter x 14-consumer grammar (complete to depth 2 in quick, + a seeded sample of depth 3; complete "
+                    "depth 3 in thorough), each evaluated on five inputs through the konst macro and the identical std "
+                    "chain; non-trivial = chain of depth >= 1")
+def c10(run):
+    q = run.tier == "quick"
+    out2 = vec("C10-IterDsl-d2.ndjson")
+    out3 = vec("C10-IterDsl-d3.ndjson")
+    for o in (out2, out3):
+        if os.path.exists(o):
+            os.remove(o)
+    run.mc("MC_IterDsl", "IterDsl.d2.cfg", env={"OUT": out2}, heap="8g", timeout=3000)
+    run.mc("MC_IterDsl", "IterDsl.d3.cfg", env={"OUT": out3}, heap="8g", timeout=3000)
+    run.sample_file(out2, k=2)
+    _iterdsl_programs(run, out2, "C10-d2").execute()
+    d3 = _iterdsl_programs(run, out3, "C10-d3", limit=1200 if q else None, seed=run.seed)
+    d3.execute()
+    run.assumptions += [BOUNDED, STD_GUARD + " (skipped on the two documented exceptions and on the known shape)",
+                        "closures come from a fixed pure library acting on an injective scalarisation of the item",
+                        "how often upstream closures run is not compared (the property speaks of produced values)"]
